@@ -58,39 +58,53 @@ Proof.
   - rewrite (H n) by lia. rewrite <- (IH j) by (auto; try lia; intros; apply H; lia). lia.
 Qed.
 
-(* number of tasks of event e *)
-Fixpoint tcount (e : nat) (ts : list task) : nat :=
-  match ts with [] => 0 | t :: r => (if Nat.eqb (tev t) e then 1 else 0) + tcount e r end.
+(* waitingHandlers units held by a task: a call in progress counts for the suspended handler
+   and for the call *)
+Definition tw (t : task) : nat := match tmode t with TResume => 2 | _ => 1 end.
+Fixpoint tload (e : nat) (ts : list task) : nat :=
+  match ts with [] => 0 | t :: r => (if Nat.eqb (tev t) e then tw t else 0) + tload e r end.
 
-Lemma tcount_app : forall e a b, tcount e (a ++ b) = tcount e a + tcount e b.
+Lemma tw_pos : forall t, 1 <= tw t.
+Proof. intros t. unfold tw. destruct (tmode t); lia. Qed.
+
+Lemma tload_app : forall e a b, tload e (a ++ b) = tload e a + tload e b.
 Proof. induction a; simpl; intros; [reflexivity|]. rewrite IHa. lia. Qed.
 
-Lemma tcount_zero : forall e ts, tcount e ts = 0 -> forall t, In t ts -> tev t <> e.
+Lemma tload_zero : forall e ts, tload e ts = 0 -> forall t, In t ts -> tev t <> e.
 Proof.
   induction ts as [|a r IH]; simpl; intros H t Ht; [contradiction|].
-  destruct (Nat.eqb_spec (tev a) e); [lia|]. destruct Ht as [<-|Ht]; [assumption|]. apply IH; [lia|assumption].
+  destruct (Nat.eqb_spec (tev a) e); [pose proof (tw_pos a); lia|].
+  destruct Ht as [<-|Ht]; [assumption|]. apply IH; [lia|assumption].
 Qed.
 
-Lemma tcount_in : forall e ts t, In t ts -> tev t = e -> 0 < tcount e ts.
+Lemma tload_in : forall e ts t, In t ts -> tev t = e -> tw t <= tload e ts.
 Proof.
   induction ts as [|a r IH]; simpl; intros t Ht He; [contradiction|].
   destruct Ht as [->|Ht]; [rewrite He, Nat.eqb_refl; lia|]. specialize (IH t Ht He). lia.
 Qed.
 
-Lemma tcount_remove : forall e ts p t, nth_error ts p = Some t ->
-  tcount e ts = (if Nat.eqb (tev t) e then 1 else 0) + tcount e (remove_nth p ts).
+Lemma tload_remove : forall e ts p t, nth_error ts p = Some t ->
+  tload e ts = (if Nat.eqb (tev t) e then tw t else 0) + tload e (remove_nth p ts).
 Proof.
   induction ts as [|a r IH]; intros [|p] t H; simpl in *; try discriminate.
   - inversion H; subst. reflexivity.
   - rewrite (IH p t H). lia.
 Qed.
 
-Lemma tcount_replace : forall e ts p t t', nth_error ts p = Some t -> tev t' = tev t ->
-  tcount e (replace_nth p t' ts) = tcount e ts.
+Lemma tload_replace : forall e ts p t t', nth_error ts p = Some t ->
+  tload e (replace_nth p t' ts) + (if Nat.eqb (tev t) e then tw t else 0) =
+  tload e ts + (if Nat.eqb (tev t') e then tw t' else 0).
 Proof.
-  induction ts as [|a r IH]; intros [|p] t t' H He; simpl in *; try discriminate.
-  - inversion H; subst. rewrite He. reflexivity.
-  - rewrite (IH p t t' H He). reflexivity.
+  induction ts as [|a r IH]; intros [|p] t t' H; simpl in *; try discriminate.
+  - inversion H; subst. lia.
+  - pose proof (IH p t t' H). lia.
+Qed.
+
+Lemma tload_filter : forall e (f : waiter -> bool) ws,
+  tload e (map wtask (filter f ws)) + tload e (map wtask (filter (fun w => negb (f w)) ws)) =
+  tload e (map wtask ws).
+Proof.
+  induction ws as [|w r IH]; simpl; [reflexivity|]. destruct (f w); simpl; lia.
 Qed.
 
 Lemma in_remove_nth : forall A (l : list A) p x, In x (remove_nth p l) -> In x l.
@@ -164,7 +178,8 @@ Record Inv (m : mark) (cur : option nat) (s : st) : Prop := {
   i_q_nodup : NoDup (queue s);
   i_qd : forall e, e < next s -> phase s e = PQueued -> In e (queue s);
   i_task : forall t, In t (tasks s) -> tev t < next s /\ phase s (tev t) = PActive;
-  i_wait : forall e, waiting s e = tcount e (tasks s);
+  i_waiter : forall w, In w (waiters s) -> tev (wtask w) < next s /\ phase s (tev (wtask w)) = PActive;
+  i_wait : forall e, waiting s e = tload e (tasks s) + tload e (map wtask (waiters s));
   i_active : forall e, phase s e = PActive -> cur = Some e \/ 0 < waiting s e;
   i_cur : forall e, cur = Some e -> e < next s /\ phase s e = PActive;
   i_fc : forall e, In (LFC e) (log s) -> trk s e = true /\ (cause s e = None \/ m = MLog e);
@@ -233,7 +248,7 @@ Qed.
 
 Lemma fire_add_log : forall h k sp y s, fire h k sp (add_log y s) = add_log y (fire h k sp s).
 Proof.
-  intros. destruct h as [h|]; unfold fire, link; simpl; [|reflexivity].
+  intros. destruct h as [h|]; unfold fire, fire_g, link; simpl; [|reflexivity].
   destruct (upd (cause s) (next s) None h); reflexivity.
 Qed.
 
@@ -277,7 +292,7 @@ Proof.
     + apply IH; [assumption|]. intro. apply Hi. right; assumption.
 Qed.
 
-Lemma tcount_fresh : forall n ts, (forall t, In t ts -> tev t < n) -> tcount n ts = 0.
+Lemma tload_fresh : forall n ts, (forall t, In t ts -> tev t < n) -> tload n ts = 0.
 Proof.
   induction ts as [|a r IH]; simpl; intros H; [reflexivity|].
   destruct (Nat.eqb_spec (tev a) n) as [E|E].
@@ -297,6 +312,14 @@ Proof.
   intros j Hj. rewrite upd_neq by lia. reflexivity.
 Qed.
 
+Lemma load_fresh : forall m cur s, Inv m cur s ->
+  tload (next s) (tasks s) + tload (next s) (map wtask (waiters s)) = 0.
+Proof.
+  intros m cur s I. rewrite !tload_fresh; [reflexivity| |].
+  - intros t Ht. apply in_map_iff in Ht. destruct Ht as [w [<- Ht]]. apply (i_waiter _ _ _ I _ Ht).
+  - intros t Ht. apply (i_task _ _ _ I _ Ht).
+Qed.
+
 Ltac qgoals I :=
   match goal with
   | H : In _ (_ ++ [_]) |- _ /\ _ =>
@@ -309,9 +332,9 @@ Ltac qgoals I :=
       apply in_or_app;
       first [ right; left; solve [auto | congruence] | left; apply (i_qd _ _ _ I); [lia|assumption] ]
   | H : In ?t (tasks _) |- tev ?t < _ /\ _ => destruct (i_task _ _ _ I _ H); split; [lia|assumption]
-  | |- 0 = tcount _ _ =>
-      symmetry; subst; apply tcount_fresh;
-      let t := fresh in let Ht := fresh in intros t Ht; apply (i_task _ _ _ I _ Ht)
+  | |- 0 = tload _ _ + tload _ _ => symmetry; subst; apply (load_fresh _ _ _ I)
+  | H : In ?w (waiters _) |- _ =>
+      destruct (i_waiter _ _ _ I _ H); first [lia | split; [lia|assumption]]
   | H : In (LFC _) (log _) |- _ =>
       let A := fresh in destruct (i_fc _ _ _ I _ H) as [A _]; apply (i_trk_alloc _ _ _ I) in A; lia
   | H : In ?y (log _), H0 : hentry ?y ?d |- ?d < _ => pose proof (i_log_alloc _ _ _ I _ _ H H0); lia
@@ -348,7 +371,7 @@ Qed.
 Lemma inv_fire_link : forall s h c k sp, Inv MNone (Some h) s -> cause s h = Some c ->
   Inv MNone (Some h) (fire (Some h) k sp s).
 Proof.
-  intros s h c k sp I Ech. unfold fire, link.
+  intros s h c k sp I Ech. unfold fire, fire_g, link.
   destruct (i_cur _ _ _ I h eq_refl) as [Hh Hph].
   assert (Hc : cause (alloc k sp (Some h) s) h = Some c) by (simpl; rewrite upd_neq by lia; exact Ech).
   rewrite Hc. 
@@ -382,20 +405,20 @@ Proof.
   intros cur s k sp I. destruct cur as [h|].
   - destruct (cause s h) as [c|] eqn:E.
     + eapply inv_fire_link; eauto.
-    + unfold fire, link. destruct (i_cur _ _ _ I h eq_refl) as [Hh _].
+    + unfold fire, fire_g, link. destruct (i_cur _ _ _ I h eq_refl) as [Hh _].
       assert (Hc : cause (alloc k sp (Some h) s) h = None) by (simpl; rewrite upd_neq by lia; exact E).
       rewrite Hc. apply inv_alloc; [assumption|]. intros h' Hh'. inversion Hh'; subst. auto.
-  - unfold fire. apply inv_alloc; [assumption|]. intros; discriminate.
+  - unfold fire, fire_g. apply inv_alloc; [assumption|]. intros; discriminate.
 Qed.
 
 Lemma fire_next : forall h k sp s, next (fire h k sp s) = S (next s).
-Proof. intros. destruct h as [h|]; unfold fire, link; simpl; [|reflexivity]. destruct (upd (cause s) (next s) None h); reflexivity. Qed.
+Proof. intros. destruct h as [h|]; unfold fire, fire_g, link; simpl; [|reflexivity]. destruct (upd (cause s) (next s) None h); reflexivity. Qed.
 Lemma fire_phase_new : forall h k sp s, phase (fire h k sp s) (next s) = PQueued.
-Proof. intros. destruct h as [h|]; unfold fire, link; simpl; [|apply upd_eq]. destruct (upd (cause s) (next s) None h); simpl; apply upd_eq. Qed.
+Proof. intros. destruct h as [h|]; unfold fire, fire_g, link; simpl; [|apply upd_eq]. destruct (upd (cause s) (next s) None h); simpl; apply upd_eq. Qed.
 
 Lemma inv_fire_user : forall cur s sp, Inv MNone cur s -> Inv MNone cur (fire_user cur sp s).
 Proof.
-  intros cur s sp I. unfold fire_user. rewrite fire_add_log.
+  intros cur s sp I. unfold fire_user, fire_user_g. change (fire_g cur cur) with (fire cur). rewrite fire_add_log.
   apply inv_add_log.
   - apply inv_fire; assumption.
   - intros; discriminate.
@@ -580,29 +603,49 @@ Qed.
 (* ------------------------------------------------------------------ dispatcher and task steps *)
 
 (* facts about the head of the queue *)
-Lemma queue_head : forall m cur s e q, Inv m cur s -> queue s = e :: q ->
+(* q is the queue of s with the (queued) event e taken out *)
+Definition qpop (s : st) (e : nat) (q : list nat) : Prop :=
+  In e (queue s) /\ NoDup q /\ forall x, In x q <-> (In x (queue s) /\ x <> e).
+
+Lemma remove_nth_qpop : forall (l : list nat) p e, nth_error l p = Some e -> NoDup l ->
+  In e l /\ NoDup (remove_nth p l) /\ forall x, In x (remove_nth p l) <-> (In x l /\ x <> e).
+Proof.
+  induction l as [|a r IH]; intros [|p] e H N; simpl in *; try discriminate.
+  - inversion H; subst. inversion N; subst. split; [auto|]. split; [assumption|].
+    intros x. split.
+    + intros Hx. split; [auto|]. intros ->. contradiction.
+    + intros [[->|Hx] Hne]; [congruence|assumption].
+  - inversion N; subst. destruct (IH p e H H3) as [A [B C]]. split; [auto|]. split.
+    + constructor; [|assumption]. intro X. apply C in X. tauto.
+    + intros x. split.
+      * intros [->|Hx]; [split; [auto|]|apply C in Hx; tauto]. intros ->. contradiction.
+      * intros [[->|Hx] Hne]; [left; reflexivity|right; apply C; tauto].
+Qed.
+
+Lemma queue_head : forall m cur s e q, Inv m cur s -> qpop s e q ->
   e < next s /\ phase s e = PQueued /\ ~ In e q /\ NoDup q /\
   (forall d h, gpar s d = Some h -> h <> e) /\
   (forall d c, cause s d = Some c -> c <> d -> c <> e) /\
-  (forall t, In t (tasks s) -> tev t <> e) /\ cur <> Some e.
+  (forall t, In t (tasks s) -> tev t <> e) /\ cur <> Some e /\
+  (forall w, In w (waiters s) -> tev (wtask w) <> e).
 Proof.
-  intros m cur s e q I Hq.
-  assert (Hin : In e (queue s)) by (rewrite Hq; left; reflexivity).
+  intros m cur s e q I [Hin [N Hq]].
   destruct (i_q _ _ _ I _ Hin) as [A B].
-  pose proof (i_q_nodup _ _ _ I) as N. rewrite Hq in N. inversion N; subst.
   repeat split; auto.
+  - intro X. apply Hq in X. tauto.
   - intros d h G ->. apply (i_gpar_phase _ _ _ I) in G. congruence.
   - intros d c G Hne ->. apply (i_cause_shape _ _ _ I) in G; [|assumption]. apply (i_gpar_phase _ _ _ I) in G. congruence.
   - intros t Ht E. destruct (i_task _ _ _ I _ Ht) as [_ P]. rewrite E in P. congruence.
   - intros ->. destruct (i_cur _ _ _ I _ eq_refl) as [_ P]. congruence.
+  - intros w Hw E. destruct (i_waiter _ _ _ I _ Hw) as [_ P]. rewrite E in P. congruence.
 Qed.
 
-Lemma inv_pop_active : forall s e q, Inv MNone None s -> queue s = e :: q ->
+Lemma inv_pop_active : forall s e q, Inv MNone None s -> qpop s e q ->
   ev_canc (spec s e) = false -> compl s e = false ->
   Inv MNone (Some e) (set_phase (set_queue s q) (upd (phase s) e PActive)).
 Proof.
   intros s e q I Hq Hx Hco.
-  destruct (queue_head _ _ _ _ _ I Hq) as [Hlt [Hph [Hnin [Hnd [Hg [Hc [Ht Hcur]]]]]]].
+  destruct (queue_head _ _ _ _ _ I Hq) as [Hlt [Hph [Hnin [Hnd [Hg [Hc [Ht [Hcur Hwt]]]]]]]]; pose proof (proj2 (proj2 Hq)) as Hqq.
   constructor; simpl; try (destruct I; assumption); intros.
   - rewrite (i_count _ _ _ I _ H). unfold selfc, upd. destruct (Nat.eqb_spec e0 e); [subst; rewrite Hph|]; reflexivity.
   - unfold upd. destruct (Nat.eqb_spec h e); [discriminate|]. eapply i_gpar_phase; eauto.
@@ -611,22 +654,23 @@ Proof.
   - unfold upd in H0. destruct (Nat.eqb_spec e0 e); [subst|eapply i_disp_trk; eauto].
     rewrite (i_compl _ _ _ I _ Hlt Hx) in Hco. congruence.
   - assert (e0 <> e) by (intros ->; contradiction). rewrite upd_neq by assumption.
-    apply (i_q _ _ _ I). rewrite Hq. right; assumption.
+    apply (i_q _ _ _ I). apply Hqq in H. tauto.
   - unfold upd in H0. destruct (Nat.eqb_spec e0 e); [discriminate|].
-    pose proof (i_qd _ _ _ I _ H H0) as X. rewrite Hq in X. destruct X; [congruence|assumption].
+    apply Hqq. split; [eapply i_qd; eauto|assumption].
   - rewrite upd_neq by (apply Ht; assumption). eapply i_task; eauto.
+  - rewrite upd_neq by (apply Hwt; assumption). eapply i_waiter; eauto.
   - unfold upd in H. destruct (Nat.eqb_spec e0 e); [subst; left; reflexivity|].
     destruct (i_active _ _ _ I _ H); [discriminate|right; assumption].
   - inversion H; subst. rewrite upd_eq. auto.
 Qed.
 
-Lemma inv_pop_nested : forall s e q c, Inv MNone None s -> queue s = e :: q ->
+Lemma inv_pop_nested : forall s e q c, Inv MNone None s -> qpop s e q ->
   cause s e = Some c ->
   Inv MNone (Some e) (set_cause_eff (set_phase (set_queue s q) (upd (phase s) e PActive))
                          (cause s) (upd (effects s) e 1%Z) (trk s)).
 Proof.
   intros s e q c I Hq Hca.
-  destruct (queue_head _ _ _ _ _ I Hq) as [Hlt [Hph [Hnin [Hnd [Hg [Hc [Ht Hcur]]]]]]].
+  destruct (queue_head _ _ _ _ _ I Hq) as [Hlt [Hph [Hnin [Hnd [Hg [Hc [Ht [Hcur Hwt]]]]]]]]; pose proof (proj2 (proj2 Hq)) as Hqq.
   assert (Hcnt : cnt (childb (cause s) e) (next s) = 0).
   { apply cnt_zero. intros i Hi. unfold childb. destruct (Nat.eqb_spec i e); [reflexivity|]. simpl.
     destruct (cause s i) as [c'|] eqn:E; [|reflexivity]. destruct (Nat.eqb_spec c' e); [|reflexivity].
@@ -643,22 +687,23 @@ Proof.
   - unfold upd in H0. destruct (Nat.eqb_spec e0 e); [subst|eapply i_disp_trk; eauto].
     apply (i_trk_live _ _ _ I). congruence.
   - assert (e0 <> e) by (intros ->; contradiction). rewrite upd_neq by assumption.
-    apply (i_q _ _ _ I). rewrite Hq. right; assumption.
+    apply (i_q _ _ _ I). apply Hqq in H. tauto.
   - unfold upd in H0. destruct (Nat.eqb_spec e0 e); [discriminate|].
-    pose proof (i_qd _ _ _ I _ H H0) as X. rewrite Hq in X. destruct X; [congruence|assumption].
+    apply Hqq. split; [eapply i_qd; eauto|assumption].
   - rewrite upd_neq by (apply Ht; assumption). eapply i_task; eauto.
+  - rewrite upd_neq by (apply Hwt; assumption). eapply i_waiter; eauto.
   - unfold upd in H. destruct (Nat.eqb_spec e0 e); [subst; left; reflexivity|].
     destruct (i_active _ _ _ I _ H); [discriminate|right; assumption].
   - inversion H; subst. rewrite upd_eq. auto.
 Qed.
 
-Lemma inv_pop_root : forall s e q, Inv MNone None s -> queue s = e :: q ->
+Lemma inv_pop_root : forall s e q, Inv MNone None s -> qpop s e q ->
   cause s e = None -> 
   Inv MNone (Some e) (set_cause_eff (set_phase (set_queue s q) (upd (phase s) e PActive))
                          (upd (cause s) e (Some e)) (upd (effects s) e 1%Z) (upd (trk s) e true)).
 Proof.
   intros s e q I Hq Hca.
-  destruct (queue_head _ _ _ _ _ I Hq) as [Hlt [Hph [Hnin [Hnd [Hg [Hc [Ht Hcur]]]]]]].
+  destruct (queue_head _ _ _ _ _ I Hq) as [Hlt [Hph [Hnin [Hnd [Hg [Hc [Ht [Hcur Hwt]]]]]]]]; pose proof (proj2 (proj2 Hq)) as Hqq.
   assert (Htr : trk s e = false).
   { destruct (trk s e) eqn:T; [|reflexivity]. pose proof (i_rel_fin _ _ _ I _ T Hca). congruence. }
   constructor; simpl; try (destruct I; assumption); intros.
@@ -690,10 +735,11 @@ Proof.
     + eapply i_self_cause; eauto.
   - (* disp_trk *) unfold upd in *. destruct (Nat.eqb_spec e0 e); [reflexivity|]. eapply i_disp_trk; eauto.
   - assert (e0 <> e) by (intros ->; contradiction). rewrite upd_neq by assumption.
-    apply (i_q _ _ _ I). rewrite Hq. right; assumption.
+    apply (i_q _ _ _ I). apply Hqq in H. tauto.
   - unfold upd in H0. destruct (Nat.eqb_spec e0 e); [discriminate|].
-    pose proof (i_qd _ _ _ I _ H H0) as X. rewrite Hq in X. destruct X; [congruence|assumption].
+    apply Hqq. split; [eapply i_qd; eauto|assumption].
   - rewrite upd_neq by (apply Ht; assumption). eapply i_task; eauto.
+  - rewrite upd_neq by (apply Hwt; assumption). eapply i_waiter; eauto.
   - unfold upd in H. destruct (Nat.eqb_spec e0 e); [subst; left; reflexivity|].
     destruct (i_active _ _ _ I _ H); [discriminate|right; assumption].
   - inversion H; subst. rewrite upd_eq. auto.
@@ -702,12 +748,12 @@ Proof.
   - (* fc_conv *) unfold upd in *. destruct (Nat.eqb_spec e0 e); [discriminate|]. eapply i_fc_conv; eauto.
 Qed.
 
-Lemma inv_pop_cancel : forall s e q, Inv MNone None s -> queue s = e :: q ->
+Lemma inv_pop_cancel : forall s e q, Inv MNone None s -> qpop s e q ->
   ev_canc (spec s e) = true ->
   Inv (MDec e) None (set_phase (set_compl (set_queue s q) (upd (compl s) e false)) (upd (phase s) e PFin)).
 Proof.
   intros s e q I Hq Hx.
-  destruct (queue_head _ _ _ _ _ I Hq) as [Hlt [Hph [Hnin [Hnd [Hg [Hc [Ht Hcur]]]]]]].
+  destruct (queue_head _ _ _ _ _ I Hq) as [Hlt [Hph [Hnin [Hnd [Hg [Hc [Ht [Hcur Hwt]]]]]]]]; pose proof (proj2 (proj2 Hq)) as Hqq.
   constructor; simpl; try (destruct I; assumption); intros.
   - rewrite (i_count _ _ _ I _ H). unfold selfc, upd. destruct (Nat.eqb_spec e0 e).
     + subst. rewrite Hph, Nat.eqb_refl. simpl. lia.
@@ -720,14 +766,26 @@ Proof.
   - unfold upd. destruct (Nat.eqb_spec e0 e); [subst; congruence|]. eapply i_compl; eauto.
   - unfold upd in H0. destruct (Nat.eqb_spec e0 e); [subst; congruence|eapply i_disp_trk; eauto].
   - assert (e0 <> e) by (intros ->; contradiction). rewrite upd_neq by assumption.
-    apply (i_q _ _ _ I). rewrite Hq. right; assumption.
+    apply (i_q _ _ _ I). apply Hqq in H. tauto.
   - unfold upd in H0. destruct (Nat.eqb_spec e0 e); [discriminate|].
-    pose proof (i_qd _ _ _ I _ H H0) as X. rewrite Hq in X. destruct X; [congruence|assumption].
+    apply Hqq. split; [eapply i_qd; eauto|assumption].
   - rewrite upd_neq by (apply Ht; assumption). eapply i_task; eauto.
+  - rewrite upd_neq by (apply Hwt; assumption). eapply i_waiter; eauto.
   - unfold upd in H. destruct (Nat.eqb_spec e0 e); [discriminate|].
     destruct (i_active _ _ _ I _ H); [discriminate|right; assumption].
   - discriminate.
   - destruct (i_fc _ _ _ I _ H) as [A [B|B]]; [auto|discriminate].
+Qed.
+
+
+(* ------------------------------------------------------------------ gate, dispatcher and task steps *)
+
+Lemma load_zero : forall m cur s e, Inv m cur s -> waiting s e = 0 ->
+  (forall t, In t (tasks s) -> tev t <> e) /\ (forall w, In w (waiters s) -> tev (wtask w) <> e).
+Proof.
+  intros m cur s e I Hw. rewrite (i_wait _ _ _ I) in Hw. split.
+  - apply tload_zero. lia.
+  - intros w Hin. apply (tload_zero e (map wtask (waiters s))); [lia|]. apply in_map. assumption.
 Qed.
 
 Lemma inv_active_fin : forall s e, Inv MNone (Some e) s -> waiting s e = 0 ->
@@ -735,6 +793,7 @@ Lemma inv_active_fin : forall s e, Inv MNone (Some e) s -> waiting s e = 0 ->
 Proof.
   intros s e I Hw.
   destruct (i_cur _ _ _ I _ eq_refl) as [Hlt Hph].
+  destruct (load_zero _ _ _ _ I Hw) as [Ht Hwt].
   constructor; simpl; try (destruct I; assumption); intros.
   - rewrite (i_count _ _ _ I _ H). unfold selfc, upd. destruct (Nat.eqb_spec e0 e).
     + subst. rewrite Hph, Nat.eqb_refl. simpl. lia.
@@ -749,16 +808,62 @@ Proof.
   - destruct (i_q _ _ _ I _ H) as [A B]. split; [assumption|].
     rewrite upd_neq; [assumption|]. intros ->. congruence.
   - unfold upd in H0. destruct (Nat.eqb_spec e0 e); [discriminate|]. eapply i_qd; eauto.
-  - destruct (i_task _ _ _ I _ H) as [A B]. split; [assumption|]. rewrite upd_neq; [assumption|].
-    apply (tcount_zero e (tasks s)); [rewrite <- (i_wait _ _ _ I); assumption|assumption].
+  - destruct (i_task _ _ _ I _ H) as [A B]. split; [assumption|]. rewrite upd_neq; [assumption|]. auto.
+  - destruct (i_waiter _ _ _ I _ H) as [A B]. split; [assumption|]. rewrite upd_neq; [assumption|]. auto.
   - unfold upd in H. destruct (Nat.eqb_spec e0 e); [discriminate|].
     destruct (i_active _ _ _ I _ H) as [X|X]; [inversion X; congruence|right; assumption].
   - discriminate.
   - destruct (i_fc _ _ _ I _ H) as [A [B|B]]; [auto|discriminate].
 Qed.
 
+(* allocation does not touch the bookkeeping of existing events *)
+Lemma alloc_waiting : forall k sp gp s e, e < next s -> waiting (alloc k sp gp s) e = waiting s e.
+Proof. intros. simpl. apply upd_neq. lia. Qed.
+
+Lemma fire_frame : forall h gp k sp s,
+  tasks (fire_g h gp k sp s) = tasks s /\ waiters (fire_g h gp k sp s) = waiters s /\
+  next (fire_g h gp k sp s) = S (next s) /\
+  (forall e, e < next s -> waiting (fire_g h gp k sp s) e = waiting s e /\
+                           phase (fire_g h gp k sp s) e = phase s e /\
+                           spec (fire_g h gp k sp s) e = spec s e /\
+                           alert (fire_g h gp k sp s) e = alert s e).
+Proof.
+  intros. destruct h as [h|]; unfold fire_g, link; simpl.
+  - destruct (upd (cause s) (next s) None h); simpl; repeat split; auto; apply upd_neq; lia.
+  - repeat split; auto; apply upd_neq; lia.
+Qed.
+
 Lemma inv_finish : forall s e, Inv MNone (Some e) s -> waiting s e = 0 -> Inv MNone None (finish e s).
-Proof. intros. unfold finish. apply inv_walk; [lia|]. apply inv_active_fin; assumption. Qed.
+Proof.
+  intros s e I Hw. unfold finish. cbv zeta.
+  destruct (i_cur _ _ _ I _ eq_refl) as [Hlt Hph].
+  set (s1 := if alert s e then alloc (KDone e) dummy None s else s).
+  assert (I1 : Inv MNone (Some e) s1 /\ waiting s1 e = 0 /\ next s <= next s1).
+  { subst s1. destruct (alert s e).
+    - split; [apply inv_alloc; [assumption|intros; discriminate]|]. split; [rewrite alloc_waiting; assumption|simpl; lia].
+    - auto. }
+  destruct I1 as [I1 [W1 N1]].
+  set (s2 := if ev_succ (spec s1 e) && negb (errs s1 e) then alloc (KSucc e) dummy None s1 else s1).
+  assert (I2 : Inv MNone (Some e) s2 /\ waiting s2 e = 0).
+  { subst s2. destruct (ev_succ (spec s1 e) && negb (errs s1 e)).
+    - split; [apply inv_alloc; [assumption|intros; discriminate]|]. rewrite alloc_waiting; [assumption|lia].
+    - auto. }
+  destruct I2 as [I2 W2].
+  apply inv_walk; [lia|]. apply inv_active_fin; assumption.
+Qed.
+
+Lemma inv_finish_raise : forall s e, Inv MNone (Some e) s -> waiting s e = 0 -> Inv MNone None (finish_raise e s).
+Proof.
+  intros s e I Hw. unfold finish_raise. cbv zeta.
+  destruct (i_cur _ _ _ I _ eq_refl) as [Hlt Hph].
+  set (s1 := if alert s e then fire (Some e) (KDone e) dummy s else s).
+  assert (I1 : Inv MNone (Some e) s1 /\ waiting s1 e = 0).
+  { subst s1. destruct (alert s e); [|auto].
+    split; [apply inv_fire; assumption|]. destruct (fire_frame (Some e) (Some e) (KDone e) dummy s) as [_ [_ [_ F]]].
+    destruct (F e Hlt) as [A _]. unfold fire. rewrite A. assumption. }
+  destruct I1 as [I1 W1].
+  apply inv_walk; [lia|]. apply inv_active_fin; assumption.
+Qed.
 
 (* cur can be dropped when the current event still has pending generator handlers *)
 Lemma inv_uncur : forall s e, Inv MNone (Some e) s -> 0 < waiting s e -> Inv MNone None s.
@@ -775,6 +880,13 @@ Proof.
   - eapply inv_uncur; eauto. lia.
 Qed.
 
+Lemma inv_gate_raise : forall s e, Inv MNone (Some e) s -> Inv MNone None (gate_raise e s).
+Proof.
+  intros s e I. unfold gate_raise. destruct (Nat.eqb_spec (waiting s e) 0).
+  - apply inv_finish_raise; assumption.
+  - eapply inv_uncur; eauto. lia.
+Qed.
+
 (* cur can be set to an event that has a pending task *)
 Lemma inv_setcur : forall s e, Inv MNone None s -> e < next s -> phase s e = PActive -> Inv MNone (Some e) s.
 Proof.
@@ -783,57 +895,92 @@ Proof.
   - inversion H; subst. auto.
 Qed.
 
+(* errors / alert_done / stopped do not take part in the bookkeeping *)
+Lemma inv_set_flags : forall m cur s a b c, Inv m cur s -> Inv m cur (set_flags s a b c).
+Proof. intros m cur s a b c I. constructor; simpl; destruct I; assumption. Qed.
+
 Lemma inv_add_task : forall s e i steps, Inv MNone (Some e) s -> Inv MNone (Some e) (add_task e i steps s).
 Proof.
   intros s e i steps I. destruct (i_cur _ _ _ I _ eq_refl) as [Hlt Hph]. unfold add_task.
   constructor; simpl; try (destruct I; assumption); intros.
   - apply in_app_or in H. destruct H as [H|[<-|[]]]; [eapply i_task; eauto|simpl; auto].
-  - rewrite tcount_app. simpl. unfold upd. destruct (Nat.eqb_spec e0 e).
+  - rewrite tload_app. simpl. unfold upd, tw. simpl. destruct (Nat.eqb_spec e0 e).
     + subst. rewrite Nat.eqb_refl, (i_wait _ _ _ I e). lia.
     + destruct (Nat.eqb_spec e e0); [congruence|]. rewrite (i_wait _ _ _ I e0). lia.
   - unfold upd. destruct (Nat.eqb_spec e0 e); [right; lia|eapply i_active; eauto].
 Qed.
 
-Lemma fire_tasks : forall h k sp s, tasks (fire h k sp s) = tasks s /\ waiting (fire h k sp s) = upd (waiting s) (next s) 0.
+Lemma fire_user_frame : forall h gp sp s,
+  tasks (fire_user_g h gp sp s) = tasks s /\ waiters (fire_user_g h gp sp s) = waiters s /\
+  next (fire_user_g h gp sp s) = S (next s) /\
+  (forall e, e < next s -> waiting (fire_user_g h gp sp s) e = waiting s e /\
+                           spec (fire_user_g h gp sp s) e = spec s e).
 Proof.
-  intros. destruct h as [h|]; unfold fire, link; simpl; [|auto].
-  destruct (upd (cause s) (next s) None h); simpl; auto.
+  intros. unfold fire_user_g.
+  destruct (fire_frame h gp KUser sp (add_log (LF (next s)) s)) as [A [B [C D]]].
+  simpl in *. repeat split; auto; apply D; assumption.
 Qed.
 
-Lemma fire_all_tasks : forall h l s, Inv MNone h s ->
-  tasks (fire_all h l s) = tasks s /\ (forall e, e < next s -> waiting (fire_all h l s) e = waiting s e)
-  /\ next s <= next (fire_all h l s).
+Lemma fire_all_frame : forall h gp l s,
+  tasks (fire_all_g h gp l s) = tasks s /\ waiters (fire_all_g h gp l s) = waiters s /\
+  next s <= next (fire_all_g h gp l s) /\
+  (forall e, e < next s -> waiting (fire_all_g h gp l s) e = waiting s e /\
+                           spec (fire_all_g h gp l s) e = spec s e).
 Proof.
-  induction l as [|sp r IH]; simpl; intros s I; [auto|].
-  destruct (IH (fire_user h sp s) (inv_fire_user _ _ _ I)) as [A [B C]].
-  unfold fire_user in *. rewrite fire_add_log in *. simpl in *.
-  destruct (fire_tasks h KUser sp s) as [T W]. rewrite fire_next in *.
-  rewrite A, T. repeat split; auto; [|lia].
-  intros e He. rewrite B by lia. rewrite W. apply upd_neq. lia.
+  induction l as [|sp r IH]; simpl; intros s; [repeat split; auto|].
+  destruct (IH (fire_user_g h gp sp s)) as [A [B [C D]]].
+  destruct (fire_user_frame h gp sp s) as [A' [B' [C' D']]].
+  rewrite A, B, A', B'. repeat split; auto; try lia.
+  - destruct (D e) as [X _]; [lia|]. rewrite X. apply D'. assumption.
+  - destruct (D e) as [_ X]; [lia|]. rewrite X. apply D'. assumption.
 Qed.
 
-Lemma inv_run_handlers : forall hs e i s, Inv MNone (Some e) s -> Inv MNone (Some e) (run_handlers e i hs s).
+Lemma inv_fire_errs : forall s e, Inv MNone (Some e) s -> Inv MNone (Some e) (fire_errs e s).
 Proof.
-  induction hs as [|h r IH]; intros e i s I; simpl; [assumption|].
+  intros s e I. unfold fire_errs. cbv zeta. apply inv_fire.
+  match goal with |- Inv _ _ (if ?c then _ else _) => destruct c end.
+  - apply inv_fire. apply inv_set_flags. assumption.
+  - apply inv_set_flags. assumption.
+Qed.
+
+Lemma inv_run_handlers : forall hs e i ch s, Inv MNone (Some e) s -> Inv MNone (Some e) (run_handlers e i ch hs s).
+Proof.
+  induction hs as [|h r IH]; intros e i ch s I; simpl; [assumption|].
   destruct (i_cur _ _ _ I _ eq_refl) as [Hlt Hph].
-  destruct h as [kids stop raise|steps].
+  destruct (negb (hchan h =? ch)); [apply IH; assumption|].
+  destruct h as [c kids stop raise|c steps].
   - assert (I1 : Inv MNone (Some e) (fire_all (Some e) kids (add_log (LH e i) s))).
     { apply inv_fire_all. apply inv_add_log; [assumption|intros; discriminate|].
       intros d Hd. simpl in Hd. subst d. split; [assumption|congruence]. }
-    assert (I2 : Inv MNone (Some e) (if raise then fire (Some e) (KExc e) dummy (fire_all (Some e) kids (add_log (LH e i) s))
-                                     else fire_all (Some e) kids (add_log (LH e i) s))).
-    { destruct raise; [apply inv_fire|]; assumption. }
+    set (s1 := fire_all (Some e) kids (add_log (LH e i) s)) in *.
+    assert (I2 : Inv MNone (Some e) (if stop then set_flags s1 (errs s1) (alert s1) (upd (stopd s1) e true) else s1)).
+    { destruct stop; [apply inv_set_flags|]; assumption. }
+    set (s2 := if stop then set_flags s1 (errs s1) (alert s1) (upd (stopd s1) e true) else s1) in *.
+    assert (I3 : Inv MNone (Some e) (if raise then fire_errs e s2 else s2)).
+    { destruct raise; [apply inv_fire_errs|]; assumption. }
     destruct stop; [assumption|]. apply IH; assumption.
   - apply IH. apply inv_add_task; assumption.
 Qed.
 
-Lemma inv_dispatch : forall s e q, Inv MNone None s -> queue s = e :: q ->
-  Inv MNone None (dispatch e (set_queue s q)).
+Lemma inv_wake : forall s x cur, Inv MNone cur s -> Inv MNone cur (wake x s).
+Proof.
+  intros s x cur I. unfold wake.
+  constructor; simpl; try (destruct I; assumption); intros.
+  - apply in_app_or in H. destruct H as [H|H]; [eapply i_task; eauto|].
+    apply in_map_iff in H. destruct H as [w [<- Hw]]. apply filter_In in Hw. destruct Hw as [Hw _].
+    eapply i_waiter; eauto.
+  - apply filter_In in H. destruct H as [H _]. eapply i_waiter; eauto.
+  - rewrite tload_app. rewrite (i_wait _ _ _ I e).
+    pose proof (tload_filter e (fun w => wev w =? x) (waiters s)). lia.
+Qed.
+
+Lemma inv_dispatch : forall s e q, Inv MNone None s -> qpop s e q ->
+  Inv MNone None (dispatch fixed e (set_queue s q)).
 Proof.
   intros s e q I Hq. unfold dispatch. cbv zeta.
   change (spec (set_queue s q) e) with (spec s e).
   destruct (ev_canc (spec s e)) eqn:Hx.
-  - apply inv_walk; [lia|]. exact (inv_pop_cancel s e q I Hq Hx).
+  - simpl fix_cancel. cbv iota. apply inv_walk; [lia|]. exact (inv_pop_cancel s e q I Hq Hx).
   - match goal with |- Inv _ _ (gate e (match kind ?t e with _ => _ end)) => set (s1 := t) end.
     assert (I1 : Inv MNone (Some e) s1).
     { subst s1. change (compl (set_phase (set_queue s q) (upd (phase (set_queue s q)) e PActive)) e) with (compl s e).
@@ -843,76 +990,172 @@ Proof.
         + exact (inv_pop_nested s e q c I Hq Hca).
         + exact (inv_pop_root s e q I Hq Hca).
       - exact (inv_pop_active s e q I Hq Hx Hco). }
+    destruct (i_cur _ _ _ I1 _ eq_refl) as [Hlt Hph].
+    assert (Hlog : forall y, (exists x, y = LDC x) \/ y = LD e -> Inv MNone (Some e) (add_log y s1)).
+    { intros y Hy. apply inv_add_log; [assumption| |].
+      - intros e0 ->. destruct Hy as [[x Hy]|Hy]; discriminate.
+      - intros d Hd. destruct Hy as [[x Hy]|Hy]; subst y; simpl in Hd; [contradiction|]. subst d. split; [assumption|congruence]. }
     apply inv_gate. destruct (kind s1 e).
-    + apply inv_run_handlers; assumption.
-    + apply inv_add_log; [assumption|intros; discriminate|intros d []].
-    + assumption.
+    + cbv zeta. match goal with |- Inv _ _ (if ?c then _ else _) => destruct c end;
+        [apply inv_set_flags|]; apply inv_run_handlers; assumption.
+    + apply Hlog. left. eexists; reflexivity.
+    + apply Hlog. right. reflexivity.
+    + apply Hlog. right. reflexivity.
+    + apply Hlog. right. reflexivity.
+    + apply inv_wake. apply Hlog. right. reflexivity.
 Qed.
 
-Lemma inv_task_stop : forall s e p t, Inv MNone (Some e) s -> nth_error (tasks s) p = Some t -> tev t = e ->
-  Inv MNone None (task_stop p e s).
+Lemma inv_task_update : forall s e ts' ws' W', Inv MNone (Some e) s ->
+  (forall x, In x ts' -> In x (tasks s) \/ tev x = e) ->
+  (forall w, In w ws' -> In w (waiters s) \/ tev (wtask w) = e) ->
+  (forall e0, W' e0 = tload e0 ts' + tload e0 (map wtask ws')) ->
+  (forall e0, e0 <> e -> W' e0 = waiting s e0) ->
+  Inv MNone (Some e) (set_tasks s W' ts' ws').
 Proof.
-  intros s e p t I Hn He. unfold task_stop.
-  change (Inv MNone None (gate e (set_tasks s (upd (waiting s) e (pred (waiting s e))) (remove_nth p (tasks s))))).
-  apply inv_gate.
-  pose proof (tcount_remove e _ _ _ Hn) as Hr. rewrite He, Nat.eqb_refl in Hr.
+  intros s e ts' ws' W' I Ht Hw HW Hne. destruct (i_cur _ _ _ I _ eq_refl) as [Hlt Hph].
   constructor; simpl; try (destruct I; assumption); intros.
-  - apply in_remove_nth in H. eapply i_task; eauto.
-  - unfold upd. destruct (Nat.eqb_spec e0 e).
-    + subst e0. rewrite (i_wait _ _ _ I e). lia.
-    + rewrite (i_wait _ _ _ I e0). rewrite (tcount_remove e0 _ _ _ Hn). rewrite He.
-      destruct (Nat.eqb_spec e e0); [congruence|]. reflexivity.
-  - unfold upd. destruct (Nat.eqb_spec e0 e); [subst; left; reflexivity|].
-    destruct (i_active _ _ _ I _ H) as [X|X]; [inversion X; congruence|right; assumption].
+  - destruct (Ht _ H) as [X|X]; [eapply i_task; eauto|rewrite X; auto].
+  - destruct (Hw _ H) as [X|X]; [eapply i_waiter; eauto|rewrite X; auto].
+  - destruct (Nat.eq_dec e0 e) as [->|N]; [left; reflexivity|].
+    rewrite (Hne _ N). destruct (i_active _ _ _ I _ H) as [X|X]; [inversion X; congruence|right; assumption].
 Qed.
 
-Lemma inv_task_replace : forall s e p t t', Inv MNone (Some e) s -> nth_error (tasks s) p = Some t ->
-  tev t = e -> tev t' = e ->
-  Inv MNone None (set_tasks s (waiting s) (replace_nth p t' (tasks s))).
+Lemma nth_error_replace_in : forall A (l : list A) p v x, nth_error l p = Some x -> In v (replace_nth p v l).
 Proof.
-  intros s e p t t' I Hn He He'.
-  destruct (i_cur _ _ _ I _ eq_refl) as [Hlt Hph].
-  apply (inv_uncur _ e).
-  - constructor; simpl; try (destruct I; assumption); intros.
-    + apply in_replace_nth in H. destruct H as [->|H]; [rewrite He'; auto|eapply i_task; eauto].
-    + rewrite (tcount_replace e0 _ p t t' Hn) by congruence. apply (i_wait _ _ _ I).
-  - simpl. rewrite (i_wait _ _ _ I). eapply tcount_in; [eapply nth_error_In; eauto|assumption].
+  induction l as [|a r IH]; intros [|p] v x H; simpl in *; try discriminate; auto.
+  right. eapply IH; eauto.
 Qed.
 
-Lemma inv_step_task : forall s p, Inv MNone None s -> Inv MNone None (step_task p s).
+(* the task at p ends and gives back its waitingHandlers units *)
+Lemma inv_task_end : forall s e p t, Inv MNone (Some e) s -> nth_error (tasks s) p = Some t -> tev t = e ->
+  Inv MNone (Some e) (task_end (tw t) p e s).
+Proof.
+  intros s e p t I Hn He. unfold task_end.
+  apply inv_task_update; auto.
+  - intros x Hx. left. eapply in_remove_nth; eauto.
+  - intros e0. pose proof (tload_remove e0 _ _ _ Hn) as R. pose proof (i_wait _ _ _ I e0) as W.
+    unfold upd. destruct (Nat.eqb_spec e0 e).
+    + subst e0. rewrite He, Nat.eqb_refl in R. lia.
+    + rewrite He in R. destruct (Nat.eqb_spec e e0); [congruence|]. lia.
+  - intros e0 N. apply upd_neq. assumption.
+Qed.
+
+(* the task at p is replaced by t' (same handler) and gives back [tw t - tw t'] units *)
+Lemma inv_task_replace : forall s e p t t' W', Inv MNone (Some e) s -> nth_error (tasks s) p = Some t ->
+  tev t = e -> tev t' = e -> tw t' <= tw t ->
+  (forall e0, W' e0 = upd (waiting s) e (waiting s e - (tw t - tw t')) e0) ->
+  Inv MNone None (set_tasks s W' (replace_nth p t' (tasks s)) (waiters s)).
+Proof.
+  intros s e p t t' W' I Hn He He' Hle HW.
+  pose proof (tload_replace e _ p t t' Hn) as R. rewrite He, He', Nat.eqb_refl in R.
+  pose proof (i_wait _ _ _ I e) as W. pose proof (tw_pos t').
+  apply (inv_uncur _ e).
+  - apply inv_task_update; auto.
+    + intros x Hx. apply in_replace_nth in Hx. destruct Hx as [->|Hx]; auto.
+    + intros e0. rewrite HW. pose proof (tload_replace e0 _ p t t' Hn) as R0. pose proof (i_wait _ _ _ I e0) as W0.
+      unfold upd. destruct (Nat.eqb_spec e0 e).
+      * subst e0. lia.
+      * rewrite He in R0. rewrite He' in R0. destruct (Nat.eqb_spec e e0); [congruence|]. lia.
+    + intros e0 N. rewrite HW. apply upd_neq. assumption.
+  - simpl. rewrite HW, upd_eq.
+    pose proof (tload_in e _ t' (nth_error_replace_in _ _ p t' t Hn) He'). lia.
+Qed.
+
+Lemma inv_gen_return : forall s p t, Inv MNone (Some (tev t)) s -> nth_error (tasks s) p = Some t ->
+  Inv MNone None (gen_return p t s).
+Proof.
+  intros s p t I Hn. unfold gen_return. cbv zeta. destruct (tmode t) eqn:Hm.
+  - apply inv_gate. replace 1 with (tw t) by (unfold tw; rewrite Hm; reflexivity).
+    eapply inv_task_end; eauto.
+  - set (t' := {| tev := tev t; thd := thd t; tk := tk t; trest := []; tmode := TExh |}).
+    eapply inv_task_replace; eauto.
+    + unfold tw. rewrite Hm. simpl. lia.
+    + intros e0. unfold upd, tw. rewrite Hm. simpl. destruct (e0 =? tev t); [lia|reflexivity].
+  - apply inv_gate. replace 1 with (tw t) by (unfold tw; rewrite Hm; reflexivity).
+    eapply inv_task_end; eauto.
+Qed.
+
+Lemma inv_step_task : forall s p, Inv MNone None s -> Inv MNone None (step_task fixed p s).
 Proof.
   intros s p I. unfold step_task. destruct (nth_error (tasks s) p) as [t|] eqn:Hn; [|assumption].
+  cbv zeta. simpl fix_gen. cbv iota.
   destruct (i_task _ _ _ I _ (nth_error_In _ _ Hn)) as [Hlt Hph].
   pose proof (inv_setcur _ _ I Hlt Hph) as Ic.
-  destruct (trest t) as [|kids rest] eqn:Hr.
-  - eapply inv_task_stop; eauto.
-  - set (s0 := add_log (LG (tev t) (thd t) (tk t)) s).
-    assert (I0 : Inv MNone (Some (tev t)) s0).
-    { apply inv_add_log; [assumption|intros; discriminate|].
-      intros d Hd. simpl in Hd. subst d. split; [assumption|congruence]. }
-    pose proof (inv_fire_all _ kids _ I0) as I1.
-    destruct (fire_all_tasks (Some (tev t)) kids s0 I0) as [T [W _]].
-    assert (Hn1 : nth_error (tasks (fire_all (Some (tev t)) kids s0)) p = Some t) by (rewrite T; exact Hn).
+  set (e := tev t) in *.
+  assert (Ilog : Inv MNone (Some e) (add_log (LG e (thd t) (tk t)) s)).
+  { apply inv_add_log; [assumption|intros; discriminate|].
+    intros d Hd. simpl in Hd. subst d. split; [assumption|congruence]. }
+  destruct (trest t) as [|[kids|kids|callee] rest] eqn:Hr.
+  - apply inv_gen_return; assumption.
+  - (* plain step *)
+    set (s0 := add_log (LG e (thd t) (tk t)) s) in *.
+    pose proof (inv_fire_all _ kids _ Ilog) as I1.
+    destruct (fire_all_frame (Some e) (Some e) kids s0) as [T [Wt [_ F]]].
+    change (fire_all_g (Some e) (Some e) kids s0) with (fire_all (Some e) kids s0) in *.
+    set (s1 := fire_all (Some e) kids s0) in *.
+    assert (Hn1 : nth_error (tasks s1) p = Some t) by (rewrite T; exact Hn).
     destruct rest as [|st rest'].
-    + eapply inv_task_stop; eauto.
-    + eapply inv_task_replace; eauto.
+    + apply inv_gen_return; assumption.
+    + set (t' := {| tev := e; thd := thd t; tk := S (tk t); trest := st :: rest'; tmode := TRun |}).
+      eapply (inv_task_replace s1 e p t t'); eauto.
+      * unfold tw. simpl. destruct (tmode t); lia.
+      * intros e0. unfold upd, tw. simpl. destruct (tmode t); simpl;
+          destruct (Nat.eqb_spec e0 e); subst; try reflexivity; lia.
+  - (* raising step *)
+    set (s0 := add_log (LG e (thd t) (tk t)) s) in *.
+    pose proof (inv_fire_all _ kids _ Ilog) as I1.
+    destruct (fire_all_frame (Some e) (Some e) kids s0) as [T [Wt [_ F]]].
+    change (fire_all_g (Some e) (Some e) kids s0) with (fire_all (Some e) kids s0) in *.
+    set (s1 := fire_all (Some e) kids s0) in *.
+    assert (Hn1 : nth_error (tasks s1) p = Some t) by (rewrite T; exact Hn).
+    change (match tmode t with TResume => 2 | _ => 1 end) with (tw t).
+    pose proof (inv_task_end s1 e p t I1 Hn1 eq_refl) as I2.
+    set (s2 := task_end (tw t) p e s1) in *.
+    apply inv_gate_raise. apply (inv_fire (Some e)).
+    match goal with |- Inv _ _ (if ?c then _ else _) => destruct c end.
+    + apply (inv_fire (Some e)). apply inv_set_flags. assumption.
+    + apply inv_set_flags. assumption.
+  - (* yield self.call(callee) *)
+    set (s0 := add_log (LG e (thd t) (tk t)) s) in *.
+    pose proof (inv_fire_user _ _ callee Ilog) as I1.
+    destruct (fire_user_frame (Some e) (Some e) callee s0) as [T [Wt [_ F]]].
+    change (fire_user_g (Some e) (Some e) callee s0) with (fire_user (Some e) callee s0) in *.
+    set (s1 := fire_user (Some e) callee s0) in *.
+    assert (Hn1 : nth_error (tasks s1) p = Some t) by (rewrite T; exact Hn).
+    set (t' := {| tev := e; thd := thd t; tk := S (tk t); trest := rest; tmode := TResume |}).
+    set (w := {| wev := next s0; wtask := t' |}).
+    pose proof (i_wait _ _ _ I1 e) as We.
+    pose proof (tload_remove e _ _ _ Hn1) as Re. fold e in Re. rewrite Nat.eqb_refl in Re.
+    assert (Hload : forall e0, tload e0 (map wtask (waiters s1 ++ [w])) =
+                               tload e0 (map wtask (waiters s1)) + (if Nat.eqb e e0 then 2 else 0)).
+    { intros e0. rewrite map_app, tload_app. simpl. unfold tw. simpl. lia. }
+    apply (inv_uncur _ e).
+    + apply inv_task_update; auto.
+      * intros x Hx. left. eapply in_remove_nth; eauto.
+      * intros x Hx. apply in_app_or in Hx. destruct Hx as [Hx|[<-|[]]]; auto.
+      * intros e0. rewrite Hload. pose proof (tload_remove e0 _ _ _ Hn1) as R0. fold e in R0.
+        pose proof (i_wait _ _ _ I1 e0) as W0. unfold tw in *.
+        destruct (tmode t); unfold upd; destruct (Nat.eqb_spec e0 e); subst;
+          try rewrite Nat.eqb_refl in *; try (destruct (Nat.eqb_spec e e0); [congruence|]); lia.
+      * intros e0 N. destruct (tmode t); try reflexivity; apply upd_neq; assumption.
+    + simpl. unfold tw in Re. destruct (tmode t); try rewrite upd_eq; lia.
 Qed.
 
-Lemma inv_step : forall l s, Inv MNone None s -> Inv MNone None (step l s).
+Lemma inv_step : forall l s, Inv MNone None s -> Inv MNone None (step fixed l s).
 Proof.
-  intros [|p] s I; simpl.
-  - destruct (queue s) as [|e q] eqn:Hq; [assumption|]. apply inv_dispatch; assumption.
+  intros [p|p] s I; simpl.
+  - destruct (nth_error (queue s) p) as [e|] eqn:Hq; [|assumption]. apply inv_dispatch; [assumption|].
+    destruct (remove_nth_qpop _ _ _ Hq (i_q_nodup _ _ _ I)) as [A [B C]]. repeat split; auto; apply C; assumption.
   - apply inv_step_task; assumption.
 Qed.
 
-Lemma inv_exec : forall ls s, Inv MNone None s -> Inv MNone None (exec ls s).
+Lemma inv_exec : forall ls s, Inv MNone None s -> Inv MNone None (exec fixed ls s).
 Proof.
   unfold exec. induction ls as [|l r IH]; simpl; intros s I; [assumption|]. apply IH. apply inv_step; assumption.
 Qed.
 
 Lemma inv_reachable : forall s, reachable s -> Inv MNone None s.
 Proof. intros s [roots [ls ->]]. apply inv_exec. apply inv_start. Qed.
-
 
 (* ------------------------------------------------------------------ the C05 theorems *)
 
@@ -933,11 +1176,13 @@ Lemma complete_after_closure : forall s, reachable s -> forall e d,
 Proof. intros s R e d. apply (closure_fin _ _ (inv_reachable _ R)). Qed.
 
 Lemma fin_is_final : forall s, reachable s -> forall d, phase s d = PFin ->
-  ~ In d (queue s) /\ (forall t, In t (tasks s) -> tev t <> d).
+  ~ In d (queue s) /\ (forall t, In t (tasks s) -> tev t <> d) /\
+  (forall w, In w (waiters s) -> tev (wtask w) <> d).
 Proof.
-  intros s R d H. pose proof (inv_reachable _ R) as I. split.
+  intros s R d H. pose proof (inv_reachable _ R) as I. repeat split.
   - intro X. destruct (i_q _ _ _ I _ X). congruence.
   - intros t Ht E. destruct (i_task _ _ _ I _ Ht) as [_ P]. rewrite E in P. congruence.
+  - intros w Hw E. destruct (i_waiter _ _ _ I _ Hw) as [_ P]. rewrite E in P. congruence.
 Qed.
 
 Lemma complete_log_order : forall s, reachable s -> forall l1 l2 e y d,
@@ -951,19 +1196,19 @@ Proof.
   specialize (IH H). destruct a; try assumption. destruct (e0 =? e); lia.
 Qed.
 
-Lemma quiet_all_fin : forall s, Inv MNone None s -> queue s = [] -> tasks s = [] ->
+Lemma quiet_all_fin : forall s, Inv MNone None s -> queue s = [] -> tasks s = [] -> waiters s = [] ->
   forall e, e < next s -> phase s e = PFin.
 Proof.
-  intros s I Hq Ht e He. destruct (phase s e) eqn:P; [| |reflexivity].
+  intros s I Hq Ht Hws e He. destruct (phase s e) eqn:P; [| |reflexivity].
   - pose proof (i_qd _ _ _ I _ He P) as X. rewrite Hq in X. contradiction.
   - destruct (i_active _ _ _ I _ P) as [X|X]; [discriminate|].
-    rewrite (i_wait _ _ _ I), Ht in X. simpl in X. lia.
+    rewrite (i_wait _ _ _ I), Ht, Hws in X. simpl in X. lia.
 Qed.
 
-Lemma quiet_no_live : forall s, Inv MNone None s -> queue s = [] -> tasks s = [] ->
+Lemma quiet_no_live : forall s, Inv MNone None s -> queue s = [] -> tasks s = [] -> waiters s = [] ->
   forall e, cause s e = None.
 Proof.
-  intros s I Hq Ht.
+  intros s I Hq Ht Hws.
   assert (H : forall n e, next s - e <= n -> cause s e <> None -> False).
   { induction n as [|n IH]; intros e Hn Hl.
     - destruct (cause s e) as [c|] eqn:E; [|congruence]. apply (i_cause_lt _ _ _ I) in E. lia.
@@ -971,7 +1216,7 @@ Proof.
       { destruct (cause s e) as [c|] eqn:E; [|congruence]. apply (i_cause_lt _ _ _ I) in E. lia. }
       pose proof (i_count _ _ _ I _ Hl) as C. simpl in C.
       destruct (i_pos _ _ _ I _ Hl) as [P|[P|P]]; try discriminate.
-      unfold selfc in C. rewrite (quiet_all_fin _ I Hq Ht _ Hlt) in C.
+      unfold selfc in C. rewrite (quiet_all_fin _ I Hq Ht Hws _ Hlt) in C.
       destruct (cnt_pos_ex (childb (cause s) e) (next s)) as [i [Hi Hc]]; [lia|].
       unfold childb in Hc. destruct (Nat.eqb_spec i e); [discriminate|]. simpl in Hc.
       destruct (cause s i) as [c|] eqn:E; [|discriminate]. apply Nat.eqb_eq in Hc. subst c.
@@ -980,45 +1225,45 @@ Proof.
   intros e. destruct (cause s e) eqn:E; [|reflexivity]. exfalso. apply (H (next s) e); [lia|congruence].
 Qed.
 
-Lemma complete_eventually : forall s, reachable s -> queue s = [] -> tasks s = [] ->
+Lemma complete_eventually : forall s, reachable s -> queue s = [] -> tasks s = [] -> waiters s = [] ->
   forall e, e < next s -> ev_compl (spec s e) = true -> ev_canc (spec s e) = false ->
   fc_count e (log s) = 1.
 Proof.
-  intros s R Hq Ht e He Hc Hx. pose proof (inv_reachable _ R) as I.
+  intros s R Hq Ht Hws e He Hc Hx. pose proof (inv_reachable _ R) as I.
   assert (T : trk s e = true).
-  { apply (i_disp_trk _ _ _ I); auto. rewrite (quiet_all_fin _ I Hq Ht _ He). discriminate. }
-  pose proof (i_fc_conv _ _ _ I _ T (quiet_no_live _ I Hq Ht e) Hx Hc) as F.
+  { apply (i_disp_trk _ _ _ I); auto. rewrite (quiet_all_fin _ I Hq Ht Hws _ He). discriminate. }
+  pose proof (i_fc_conv _ _ _ I _ T (quiet_no_live _ I Hq Ht Hws e) Hx Hc) as F.
   pose proof (fc_count_in _ _ F). pose proof (i_fc_once _ _ _ I e). lia.
 Qed.
 
-Lemma quiescent_all_finished : forall s, reachable s -> queue s = [] -> tasks s = [] ->
+Lemma quiescent_all_finished : forall s, reachable s -> queue s = [] -> tasks s = [] -> waiters s = [] ->
   forall e, e < next s -> phase s e = PFin /\ cause s e = None.
 Proof.
-  intros s R Hq Ht e He. pose proof (inv_reachable _ R) as I. split.
+  intros s R Hq Ht Hws e He. pose proof (inv_reachable _ R) as I. split.
   - apply quiet_all_fin; assumption.
   - apply quiet_no_live; assumption.
 Qed.
 
 (* the schedule of Manager.tick is one of the schedules of the transition system *)
-Lemma reachable_step : forall l s, reachable s -> reachable (step l s).
+Lemma reachable_step : forall l s, reachable s -> reachable (step fixed l s).
 Proof.
   intros l s [roots [ls ->]]. exists roots, (ls ++ [l]). unfold exec. rewrite fold_left_app. reflexivity.
 Qed.
 
-Lemma reachable_step_named : forall keys s, reachable s -> reachable (step_named keys s).
+Lemma reachable_step_named : forall keys s, reachable s -> reachable (step_named fixed keys s).
 Proof.
   induction keys as [|[l i] r IH]; simpl; intros s R; [assumption|]. apply IH.
   destruct (find_task l i s (tasks s) 0) as [p|]; [apply (reachable_step (LTask p))|]; assumption.
 Qed.
 
-Lemma reachable_dispatch_n : forall n s, reachable s -> reachable (dispatch_n n s).
-Proof. induction n; simpl; intros; [assumption|]. apply IHn. apply (reachable_step LDisp); assumption. Qed.
+Lemma reachable_dispatch_n : forall n s, reachable s -> reachable (dispatch_n fixed n s).
+Proof. induction n; simpl; intros; [assumption|]. apply IHn. apply (reachable_step (LDisp _)); assumption. Qed.
 
-Lemma reachable_tick : forall keys s, reachable s -> reachable (tick keys s).
+Lemma reachable_tick : forall keys s, reachable s -> reachable (tick fixed keys s).
 Proof. intros. unfold tick. apply reachable_dispatch_n. apply reachable_step_named. assumption. Qed.
 
-Lemma run_reachable : forall fuel sched s, reachable s -> oof (run fuel sched s) = false ->
-  reachable (run fuel sched s).
+Lemma run_reachable : forall fuel sched s, reachable s -> oof (run fixed fuel sched s) = false ->
+  reachable (run fixed fuel sched s).
 Proof.
   induction fuel as [|f IH]; simpl; intros sched s R H.
   - destruct (quiet s); [assumption|discriminate].
@@ -1060,3 +1305,186 @@ Proof.
   pose proof (i_fc_conv _ _ _ I _ T (drained_released _ _ I e Hfin e (gd_refl _ _)) Hx Hc) as F.
   pose proof (fc_count_in _ _ F). pose proof (i_fc_once _ _ _ I e). lia.
 Qed.
+
+
+(* ------------------------------------------------------------------ exception / failure events are
+   effects of the event whose handler raised (any configuration) *)
+Definition kg_ok (s : st) : Prop :=
+  forall d x, kind s d = KExc x \/ kind s d = KFail x -> gpar s d = Some x.
+
+Lemma kg_alloc : forall k sp gp s, kg_ok s ->
+  (forall x, k = KExc x \/ k = KFail x -> gp = Some x) -> kg_ok (alloc k sp gp s).
+Proof.
+  intros k sp gp s H Hk d x. simpl. unfold upd. destruct (Nat.eqb_spec d (next s)); [apply Hk|apply H].
+Qed.
+
+Lemma kg_fire : forall lk gp k sp s, kg_ok s ->
+  (forall x, k = KExc x \/ k = KFail x -> gp = Some x) -> kg_ok (fire_g lk gp k sp s).
+Proof.
+  intros lk gp k sp s H Hk. unfold fire_g. pose proof (kg_alloc k sp gp s H Hk) as A.
+  destruct lk as [h|]; [|exact A]. unfold link. destruct (cause (alloc k sp gp s) h); exact A.
+Qed.
+
+Lemma kg_fire_all : forall lk gp l s, kg_ok s -> kg_ok (fire_all_g lk gp l s).
+Proof.
+  induction l as [|sp r IH]; simpl; intros s H; [assumption|]. apply IH. unfold fire_user_g.
+  apply kg_fire; [exact H|]. intros x [X|X]; discriminate.
+Qed.
+
+Lemma kg_walk : forall fuel e s, kg_ok s -> kg_ok (walk fuel e s).
+Proof.
+  induction fuel as [|f IH]; intros e s H; simpl; [exact H|].
+  destruct (cause s e) as [c|]; [|exact H].
+  destruct (0 <? effects s e - 1)%Z; [exact H|]. apply IH.
+  match goal with |- kg_ok (set_cause_eff (if ?c then _ else _) _ _ _) => destruct c end; [|exact H].
+  unfold fire_complete. apply (kg_alloc (KCompl e) dummy None (add_log (LFC e) s) H).
+  intros x [X|X]; discriminate.
+Qed.
+
+Lemma kg_finish : forall e s, kg_ok s -> kg_ok (finish e s).
+Proof.
+  intros e s H. unfold finish. cbv zeta. apply kg_walk.
+  set (s1 := if alert s e then alloc (KDone e) dummy None s else s).
+  assert (H1 : kg_ok s1).
+  { subst s1. destruct (alert s e); [|exact H]. apply kg_alloc; [exact H|]. intros x [X|X]; discriminate. }
+  set (s2 := if ev_succ (spec s1 e) && negb (errs s1 e) then alloc (KSucc e) dummy None s1 else s1).
+  assert (H2 : kg_ok s2).
+  { subst s2. destruct (ev_succ (spec s1 e) && negb (errs s1 e)); [|exact H1].
+    apply kg_alloc; [exact H1|]. intros x [X|X]; discriminate. }
+  exact H2.
+Qed.
+
+Lemma kg_finish_raise : forall e s, kg_ok s -> kg_ok (finish_raise e s).
+Proof.
+  intros e s H. unfold finish_raise. cbv zeta. apply kg_walk.
+  destruct (alert s e); [|exact H].
+  apply (kg_fire (Some e) (Some e) (KDone e) dummy s H). intros x [X|X]; discriminate.
+Qed.
+
+Lemma kg_gate : forall e s, kg_ok s -> kg_ok (gate e s).
+Proof. intros. unfold gate. destruct (waiting s e =? 0); [apply kg_finish|]; assumption. Qed.
+Lemma kg_gate_raise : forall e s, kg_ok s -> kg_ok (gate_raise e s).
+Proof. intros. unfold gate_raise. destruct (waiting s e =? 0); [apply kg_finish_raise|]; assumption. Qed.
+
+Lemma kg_errs : forall lk e s0 s, kg_ok s0 ->
+  s = (let s2 := if ev_fail (spec s0 e) then fire_g lk (Some e) (KFail e) dummy s0 else s0 in
+       fire_g lk (Some e) (KExc e) dummy s2) -> kg_ok s.
+Proof.
+  intros lk e s0 s H ->. cbv zeta. apply kg_fire.
+  - destruct (ev_fail (spec s0 e)); [|exact H]. apply kg_fire; [exact H|].
+    intros x [X|X]; inversion X; reflexivity.
+  - intros x [X|X]; inversion X; reflexivity.
+Qed.
+
+Lemma kg_run_handlers : forall hs e i ch s, kg_ok s -> kg_ok (run_handlers e i ch hs s).
+Proof.
+  induction hs as [|h r IH]; intros e i ch s H; simpl; [exact H|].
+  destruct (negb (hchan h =? ch)); [apply IH; exact H|].
+  destruct h as [c kids stop raise|c steps]; [|apply IH; exact H].
+  pose proof (kg_fire_all (Some e) (Some e) kids (add_log (LH e i) s) H) as H1.
+  change (fire_all_g (Some e) (Some e)) with (fire_all (Some e)) in H1.
+  set (s1 := fire_all (Some e) kids (add_log (LH e i) s)) in *.
+  set (s2 := if stop then set_flags s1 (errs s1) (alert s1) (upd (stopd s1) e true) else s1).
+  assert (H2 : kg_ok s2) by (subst s2; destruct stop; exact H1).
+  assert (H3 : kg_ok (if raise then fire_errs e s2 else s2)).
+  { destruct raise; [|exact H2]. unfold fire_errs. cbv zeta.
+    eapply (kg_errs (Some e) e (set_flags s2 (upd (errs s2) e true) (alert s2) (stopd s2))); [exact H2|reflexivity]. }
+  destruct stop; [exact H3|]. apply IH. exact H3.
+Qed.
+
+Lemma kg_dispatch : forall cf e s, kg_ok s -> kg_ok (dispatch cf e s).
+Proof.
+  intros cf e s H. unfold dispatch. cbv zeta. destruct (ev_canc (spec s e)).
+  - destruct (fix_cancel cf); [apply kg_walk|]; exact H.
+  - apply kg_gate.
+    match goal with |- kg_ok (match kind ?t e with _ => _ end) => set (s1 := t) end.
+    assert (H1 : kg_ok s1).
+    { subst s1. match goal with |- kg_ok (if ?c then _ else _) => destruct c end; [|exact H].
+      match goal with |- kg_ok (match ?c with _ => _ end) => destruct c end; exact H. }
+    destruct (kind s1 e); try exact H1.
+    cbv zeta. match goal with |- kg_ok (if ?c then _ else _) => destruct c end;
+      apply kg_run_handlers; exact H1.
+Qed.
+
+Lemma kg_step_task : forall cf p s, kg_ok s -> kg_ok (step_task cf p s).
+Proof.
+  intros cf p s H. unfold step_task. destruct (nth_error (tasks s) p) as [t|]; [|exact H]. cbv zeta.
+  assert (Hret : forall s', kg_ok s' -> kg_ok (gen_return p t s')).
+  { intros s' H'. unfold gen_return. cbv zeta. destruct (tmode t); try exact H'; apply kg_gate; exact H'. }
+  destruct (trest t) as [|[kids|kids|callee] rest].
+  - apply Hret; exact H.
+  - pose proof (kg_fire_all (if fix_gen cf then Some (tev t) else None) (Some (tev t)) kids
+                            (add_log (LG (tev t) (thd t) (tk t)) s) H) as H1.
+    destruct rest; [apply Hret|]; exact H1.
+  - pose proof (kg_fire_all (if fix_gen cf then Some (tev t) else None) (Some (tev t)) kids
+                            (add_log (LG (tev t) (thd t) (tk t)) s) H) as H1.
+    apply kg_gate_raise.
+    match goal with |- kg_ok (fire_g ?lk _ _ _ (if _ then fire_g _ _ _ _ ?s3 else _)) =>
+      eapply (kg_errs lk (tev t) s3); [exact H1|reflexivity] end.
+  - assert (H1 : kg_ok (fire_user_g (if fix_gen cf then Some (tev t) else None) (Some (tev t)) callee
+                                    (add_log (LG (tev t) (thd t) (tk t)) s))).
+    { unfold fire_user_g. apply kg_fire; [exact H|]. intros x [X|X]; discriminate. }
+    exact H1.
+Qed.
+
+Lemma kg_step : forall cf l s, kg_ok s -> kg_ok (step cf l s).
+Proof.
+  intros cf [p|p] s H; simpl.
+  - destruct (nth_error (queue s) p); [apply kg_dispatch|]; exact H.
+  - apply kg_step_task; exact H.
+Qed.
+
+Lemma kg_reachable : forall cf s, reachable_cf cf s -> kg_ok s.
+Proof.
+  intros cf s [roots [ls ->]]. unfold exec.
+  assert (H0 : kg_ok (start roots)).
+  { unfold start. apply (kg_fire_all None None). intros d x [X|X]; discriminate. }
+  revert H0. generalize (start roots). induction ls as [|l r IH]; simpl; intros s0 H0; [exact H0|].
+  apply IH. apply kg_step. exact H0.
+Qed.
+
+(* after <e>_complete has been fired, neither the exception event nor the <x>_failure event of a
+   member x of the closure of e is dispatched *)
+Lemma feedback_after : forall s, reachable s -> forall l1 l2 e d x,
+  log s = l2 ++ LFC e :: l1 -> In (LD d) l2 -> kind s d = KExc x \/ kind s d = KFail x ->
+  ~ gdesc (gpar s) e x.
+Proof.
+  intros s R l1 l2 e d x Hl Hin Hk G.
+  apply (i_order _ _ _ (inv_reachable _ R) l1 l2 e (LD d) d Hl Hin eq_refl).
+  eapply gd_step; [|exact G]. apply (kg_reachable fixed s R). assumption.
+Qed.
+
+(* ------------------------------------------------------------------ the code before the two repairs *)
+Definition legacy_cancel_prog : list ev :=
+  [Ev 1 true false false false 1 0 [HP 0 [Ev 2 false true false false 1 0 []] false false]].
+Definition legacy_genstep_prog : list ev :=
+  [Ev 1 true false false false 1 0
+      [HG 0 [GS []; GS [Ev 2 false false false false 1 0 [HP 0 [] false false]]]]].
+
+Lemma legacy_cancel_refuted :
+  exists roots ls, let s := exec legacy ls (start roots) in
+    queue s = [] /\ tasks s = [] /\ waiters s = [] /\
+    exists e, e < next s /\ ev_compl (spec s e) = true /\ ev_canc (spec s e) = false /\
+              fc_count e (log s) = 0.
+Proof.
+  exists legacy_cancel_prog, [LDisp 0; LDisp 0]. vm_compute.
+  repeat split. exists 0. repeat split; auto.
+Qed.
+
+Lemma legacy_genstep_refuted :
+  exists roots ls l1 l2 e y d, let s := exec legacy ls (start roots) in
+    log s = l2 ++ LFC e :: l1 /\ In y l2 /\ hentry y d /\ gdesc (gpar s) e d.
+Proof.
+  exists legacy_genstep_prog, [LDisp 0; LTask 0; LTask 0; LDisp 0],
+         [LF 1; LG 0 0 1; LG 0 0 0; LF 0], [LH 1 0], 0, (LH 1 0), 1.
+  cbv zeta. split; [vm_compute; reflexivity|]. split; [left; reflexivity|]. split; [reflexivity|].
+  eapply gd_step; [|apply gd_refl]. vm_compute. reflexivity.
+Qed.
+
+(* the same two programs under the current code *)
+Lemma fixed_cancel_ok : let s := exec fixed [LDisp 0; LDisp 0] (start legacy_cancel_prog) in
+  fc_count 0 (log s) = 1.
+Proof. vm_compute. reflexivity. Qed.
+Lemma fixed_genstep_ok : let s := exec fixed [LDisp 0; LTask 0; LTask 0; LDisp 0] (start legacy_genstep_prog) in
+  rev (log s) = [LF 0; LG 0 0 0; LG 0 0 1; LF 1; LH 1 0; LFC 0].
+Proof. vm_compute. reflexivity. Qed.
